@@ -197,43 +197,43 @@ theorem flag_hidden (f : Flags) :
 
 /-- `--no-ignore-dot`: no `.rgignore` and no `.ignore` matcher is built in any directory; nothing else changes -/
 theorem flag_no_ignore_dot (f : Flags) (d : DirFiles) :
-    childLevel (walkOpts { f with noIgnoreDot := true }) d =
+    childLevel (walkOpts { f with no_ignore_dot := true }) d =
       { childLevel (walkOpts f) d with custom := Gi.empty, ignore := Gi.empty } := by
   cases f; simp [walkOpts, childLevel]
 
 /-- `--no-ignore-vcs`: no `.gitignore` / `.git/info/exclude` matcher, no repository detection, and the global
 gitignore is off -/
 theorem flag_no_ignore_vcs (f : Flags) (d : DirFiles) :
-    childLevel (walkOpts { f with noIgnoreVcs := true }) d =
+    childLevel (walkOpts { f with no_ignore_vcs := true }) d =
       { childLevel (walkOpts f) d with gitignore := Gi.empty, exclude := Gi.empty, hasGit := false } ∧
-    (walkOpts { f with noIgnoreVcs := true }).gitGlobal = false := by
+    (walkOpts { f with no_ignore_vcs := true }).gitGlobal = false := by
   cases f; simp [walkOpts, childLevel]
 
 /-- `--no-ignore-exclude`: only the `.git/info/exclude` matcher disappears (when VCS rules are on at all) -/
-theorem flag_no_ignore_exclude (f : Flags) (d : DirFiles) (h : f.noIgnoreVcs = false) :
-    childLevel (walkOpts { f with noIgnoreExclude := true }) d =
+theorem flag_no_ignore_exclude (f : Flags) (d : DirFiles) (h : f.no_ignore_vcs = false) :
+    childLevel (walkOpts { f with no_ignore_exclude := true }) d =
       { childLevel (walkOpts f) d with exclude := Gi.empty } := by
   cases f; simp_all [walkOpts, childLevel]
 
 /-- `--no-ignore-global`: only the global gitignore is switched off -/
 theorem flag_no_ignore_global (f : Flags) :
-    walkOpts { f with noIgnoreGlobal := true } = { walkOpts f with gitGlobal := false } := by
+    walkOpts { f with no_ignore_global := true } = { walkOpts f with gitGlobal := false } := by
   cases f; simp [walkOpts]
 
 /-- `--no-ignore-parent`: only the directories above the search root stop being consulted -/
 theorem flag_no_ignore_parent (f : Flags) :
-    walkOpts { f with noIgnoreParent := true } = { walkOpts f with parents := false } := by
+    walkOpts { f with no_ignore_parent := true } = { walkOpts f with parents := false } := by
   cases f; simp [walkOpts]
 
 /-- `--no-ignore-files`: the `--ignore-file` arguments are not loaded; the walk options do not change -/
 theorem flag_no_ignore_files (f : Flags) :
-    useIgnoreFiles { f with noIgnoreFiles := true } = false ∧
-    walkOpts { f with noIgnoreFiles := true } = walkOpts f := by
+    useIgnoreFiles { f with no_ignore_files := true } = false ∧
+    walkOpts { f with no_ignore_files := true } = walkOpts f := by
   cases f; simp [walkOpts, useIgnoreFiles]
 
 /-- `--no-require-git`: git-sourced rules no longer need a repository; nothing else changes -/
 theorem flag_no_require_git (f : Flags) :
-    walkOpts { f with noRequireGit := true } = { walkOpts f with requireGit := false } := by
+    walkOpts { f with no_require_git := true } = { walkOpts f with requireGit := false } := by
   cases f; simp [walkOpts]
 
 /-- `--no-ignore` = dot + exclude + global + parent + vcs, and (documented) not `--ignore-file` -/
